@@ -299,6 +299,30 @@ pub fn deficit_at_own_minimiser(case: &LogitCase) -> Option<f64> {
     Some(obj.max_row_deficit(&pl.theta).max(obj.max_row_deficit(&t1)))
 }
 
+/// For a logistic case whose fit never returned: is the requested gradient tolerance within a factor 10 of the float
+/// resolution of the gradient at the harness' own minimiser (the resolution term of the stationarity bound)? There
+/// L-BFGS can no longer reduce the cost, a zero step makes its scaling factor 0/0, the iterate becomes NaN, the
+/// loss is NaN and argmin's line search (no iteration limit) never ends.
+pub fn tolerance_at_gradient_resolution(case: &LogitCase) -> bool {
+    let Some(d) = derive(case) else { return false };
+    let mut alpha = ALPHAS[(case.alpha_ix as usize).min(3)];
+    if alpha == 0.0 && !not_separable(&d, case.intercept, case.multi) {
+        alpha = FORCED_ALPHA;
+    }
+    let tol = TOLS[case.tight_tol as usize];
+    let resolution = |obj: &dyn Objective| -> Option<f64> {
+        let pl = model::polish(obj, &vec![0.0; obj.dim()], 200)?;
+        Some(model::grad_bound(0.0, obj.curv(&pl.theta), obj.mag(&pl.theta)))
+    };
+    let r = if case.multi {
+        resolution(&Multi { x: &d.x, c: &d.c, p: d.p, k: d.k, intercept: case.intercept, alpha })
+    } else {
+        let y: Vec<f64> = d.c.iter().map(|&c| if c == 1 { 1.0 } else { -1.0 }).collect();
+        resolution(&Binary { x: &d.x, y: &y, p: d.p, intercept: case.intercept, alpha })
+    };
+    matches!(r, Some(r) if r >= 0.1 * tol)
+}
+
 pub trait Lab: Ord + Clone + Default + Debug + 'static {}
 impl<T: Ord + Clone + Default + Debug + 'static> Lab for T {}
 
@@ -434,7 +458,7 @@ fn fit_binary<C: Lab>(obs: &mut Obs, tag: &'static str, x: &[Vec<f64>], labels: 
         Verdict::Stationary => obs.class(model::grad_class(j.gnorm, cfg.tol)),
         Verdict::Stalled => obs.class("binary_stalled_at_cost_resolution"),
         Verdict::IterationCap => obs.class("binary_stopped_by_max_iterations"),
-        Verdict::Undefined => obs.fail(
+        Verdict::Undefined | Verdict::CurvatureOverflow => obs.fail(
             "binary:nonfinite-params",
             format!("[{tag}] fit returned Ok with params {:?}, intercept {}", w, b),
         ),
@@ -593,7 +617,7 @@ fn fit_multi<C: Lab>(obs: &mut Obs, tag: &'static str, x: &[Vec<f64>], labels: &
         Verdict::Stationary => obs.class(model::grad_class(j.gnorm, cfg.tol)),
         Verdict::Stalled => obs.class("multi_stalled_at_cost_resolution"),
         Verdict::IterationCap => obs.class("multi_stopped_by_max_iterations"),
-        Verdict::Undefined => obs.fail("multi:nonfinite-params", format!("[{tag}] fit returned Ok with non-finite parameters {:?}", theta)),
+        Verdict::Undefined | Verdict::CurvatureOverflow => obs.fail("multi:nonfinite-params", format!("[{tag}] fit returned Ok with non-finite parameters {:?}", theta)),
         Verdict::NotStationary => {
             // linfa's log_sum_exp subtracts the maximum of the WHOLE score matrix and clamps every row sum at 1e-15.
             // When some training row lies more than ~34.5 below the global maximum its log-probabilities (hence loss
